@@ -627,7 +627,11 @@ func (ex *Exec) step(st *State, instr ssa.Instruction) bool {
 	case *ssa.Alloc:
 		elem := in.Type().(*types.Pointer).Elem()
 		var o *Object
-		if arr, ok := elem.Underlying().(*types.Array); ok && !isTimeType(elem) {
+		if arr, ok := elem.Underlying().(*types.Array); ok && !isTimeType(elem) && isByteType(arr.Elem()) && arr.Len() > 64 {
+			// large byte arrays (make([]byte, N) with constant N is lowered to new([N]byte)[:]) are
+			// symbolic byte arrays
+			o = ex.newSymBytes(ex.idxConst(arr.Len()), ex.posString(in.Pos()))
+		} else if ok && !isTimeType(elem) {
 			o = ex.newVec(arr.Elem(), int(arr.Len()), ex.posString(in.Pos()))
 		} else {
 			o = ex.newObj(OCell, elem, ex.posString(in.Pos()))
